@@ -645,6 +645,66 @@ def ab_of(typ, m, a):
     return mmul(m, a)
 
 
+# ----------------------------------------------------------------------------- frequency grids
+# The grid of gen_scenario is 1, 2, .. GHz.  draw_grid replaces it (the error boxes, standards and DUT are per
+# frequency INDEX, so nothing else changes): grids of every density must not matter to calibrate-then-apply at the
+# grid points, whatever tolerance an interpolation routine uses to recognise a grid point.
+GRID_KINDS = ["ordinary", "wide", "dense", "ulp"]
+
+
+def draw_grid(rng, sc, kind=None):
+    """Replace sc.freqs; all draws from rng.  Records sc.grid = {"kind", ...} (shown by describe)."""
+    import math
+    F = sc.F
+    if kind is None:
+        kind = rng.choice(GRID_KINDS)
+    info = {"kind": kind}
+    if kind == "wide":
+        lo = 10.0 ** rng.uniform(2, 5)
+        hi = 10.0 ** rng.uniform(9, 11.5)
+        fr = [lo] if F == 1 else [lo * (hi / lo) ** (i / (F - 1.0)) for i in range(F)]
+    elif kind == "dense":
+        f0 = rng.choice([1e9, 2.4e9, 10e9, 26.5e9, 77e9]) * (1 + rng.random() * 1e-3)
+        f0 = float(int(f0))
+        df = rng.choice([1.0, 1.0, 2.0, 10.0, 100.0, 1e3, 1e4])
+        fr = [f0 + i * df for i in range(F)]
+        info.update({"f0": f0, "df": df, "relative_spacing": df / f0})
+    elif kind == "ulp":
+        f0 = 10.0 ** rng.uniform(6, 10.5)
+        step = rng.choice([2, 2, 3, 5, 16])
+        fr = [f0]
+        for _ in range(F - 1):
+            x = fr[-1]
+            for _ in range(step):
+                x = math.nextafter(x, math.inf)
+            fr.append(x)
+        info.update({"f0": f0, "ulps": step})
+    else:
+        fr = [1e9 * (i + 1) for i in range(F)]
+    sc.freqs = fr
+    sc.grid = info
+    return info
+
+
+def constant_network(rng, sc):
+    """Make the error boxes the same at every frequency (the standards and the device still vary) and draw
+    frequencies strictly between the calibration points at which the device is measured as well: the terms between
+    the grid points are then the same terms, whatever interpolation is used.  Call before draw_scale."""
+    if sc.F < 2:
+        return
+    sc.enets = [sc.enets[0]] * sc.F
+    for st in sc.stds:
+        st.Mfull = [measure(sc.enets[f], st.Sfull[f], sc.r, sc.c) for f in range(sc.F)]
+    bt = []
+    for i in range(sc.F - 1):
+        lo, hi = sc.freqs[i], sc.freqs[i + 1]
+        x = lo + (hi - lo) * rng.choice([0.5, 0.25, 0.9, 1e-3])
+        if lo < x < hi:
+            bt.append(x)
+    # the device measured at bt[i] is the device of frequency index i (same box: same measurement)
+    sc.between = bt
+
+
 # ----------------------------------------------------------------------------- magnitude scaling
 # The networks of gen_enet have entries of order 1, hence measured values of order 1: an ABSOLUTE threshold
 # inside the solver / apply / LU / QR (cabs(x) < 1e-10, == 0 after rounding, an absolute convergence test)
@@ -696,7 +756,8 @@ def scaled_enet(enet, row_g, et_g):
 
 
 def has_ab(sc):
-    return sc.apply_form == "ab" and apply_accepts(sc.r, sc.c) or any(st.form == "ab" for st in sc.stds)
+    return ((getattr(sc, "apply_both", False) or sc.apply_form == "ab") and apply_accepts(sc.r, sc.c)
+            or any(st.form == "ab" for st in sc.stds))
 
 
 def draw_scale(rng, sc, mode=None, exponents=None):
@@ -726,7 +787,8 @@ def draw_scale(rng, sc, mode=None, exponents=None):
             else:
                 ks.append(None)
         ka = None
-        if sc.apply_form == "ab" and apply_accepts(sc.r, sc.c):
+        if (getattr(sc, "apply_both", False) or sc.apply_form == "ab") and apply_accepts(sc.r, sc.c):
+            # the device is applied through vnacal_apply (a/b) (in every C01 scenario): its a and b get a level too
             ka = expo()
             sc.apply_A = [mscale(a, 10.0 ** ka) for a in sc.apply_A]
         sc.scale = {"mode": mode, "exponents": {"standards": ks, "apply": ka}}
@@ -861,20 +923,22 @@ class Script(object):
             raise ValueError(st.fn)
         self.lines.append(head + " " + tail)
 
-    def apply(self, sc, name, form, mats, amats, ref=None):
+    def apply(self, sc, name, form, mats, amats, ref=None, freqs=None):
         """ref: apply through a calibration index ('rK' = value returned by the K-th addcal of the script)
-        instead of the index vnacal_find_calibration gives for the name"""
-        F = sc.F
+        instead of the index vnacal_find_calibration gives for the name; freqs: the frequencies of the device
+        measurement when they are not the calibration frequencies"""
+        fr = sc.freqs if freqs is None else freqs
+        F = len(fr)
         n = len(mats[0])
         cmd = "apply %s" % name if ref is None else "applyi %s" % ref
         if form == "ab":
             bs = [ab_of(sc.typ, mats[f], amats[f]) for f in range(F)]
             self.lines.append("%s ab %d %s %d %d %d %d %s %s" % (
-                cmd, F, " ".join(hx(f) for f in sc.freqs), len(amats[0]), n, n, n,
+                cmd, F, " ".join(hx(f) for f in fr), len(amats[0]), n, n, n,
                 self.cells(amats), self.cells(bs, True)))
         else:
             self.lines.append("%s m %d %s 0 0 %d %d %s" % (
-                cmd, F, " ".join(hx(f) for f in sc.freqs), n, n, self.cells(mats, True)))
+                cmd, F, " ".join(hx(f) for f in fr), n, n, self.cells(mats, True)))
 
     def text(self):
         if self.pool is None:
@@ -942,7 +1006,16 @@ def scenario_script(sc, slot=0, script=None, do_apply=True, dump=False, perturb=
     s.lines.append("terms %s" % sc.name)
     if do_apply and apply_accepts(sc.r, sc.c):
         mats = [dut_measurement(sc, f) for f in range(sc.F)]
-        s.apply(sc, sc.name, sc.apply_form, mats, sc.apply_A)
+        # the device through BOTH entry points, vnacal_apply_m and vnacal_apply (a/b), in the drawn order
+        # (opt-in through sc.apply_both, set by the C01 end-to-end scenarios: other users of this script -- C17 --
+        # compare the single apply of differently built scripts)
+        forms = [sc.apply_form] + (["ab" if sc.apply_form == "m" else "m"] if getattr(sc, "apply_both", False) else [])
+        for form in forms:
+            s.apply(sc, sc.name, form, mats, sc.apply_A)
+        if getattr(sc, "between", None):
+            # error boxes constant over frequency: the terms between the grid points are the same terms, so the
+            # device measured at frequencies BETWEEN the calibration points must be corrected exactly as well
+            s.apply(sc, sc.name, sc.apply_form, mats[:len(sc.between)], sc.apply_A[:len(sc.between)], freqs=sc.between)
     elif do_apply:
         # must be refused with EINVAL: feed a p x p matrix of ones
         mats = [[[1 + 0j] * sc.p for _ in range(sc.p)] for _ in range(sc.F)]
@@ -1005,6 +1078,11 @@ def describe(sc):
     if getattr(sc, "scale", None) is not None:
         # magnitude scaling of the raw measurements (draw_scale): mode and decimal exponents
         d["scale"] = sc.scale
+    if getattr(sc, "grid", None) is not None:
+        d["grid"] = sc.grid
+        d["freqs"] = [float(f).hex() for f in sc.freqs]
+    if getattr(sc, "between", None):
+        d["between"] = [float(f).hex() for f in sc.between]
     return d
 
 
@@ -1067,25 +1145,38 @@ def judge(sc, recs):
     if not ap:
         problems.append(("no-apply", "no apply output"))
         return problems, stats
-    ap = ap[0]
     if apply_accepts(sc.r, sc.c):
-        if "S" not in ap:
-            problems.append(("apply-failed", ap["line"]))
-        else:
+        forms = [sc.apply_form] + (["ab" if sc.apply_form == "m" else "m"] if getattr(sc, "apply_both", False) else [])
+        labels = ["vnacal_apply%s at the calibration frequencies" % ("_m" if fm == "m" else " (a/b)") for fm in forms]
+        if getattr(sc, "between", None):
+            labels.append("vnacal_apply%s between the calibration frequencies" % ("_m" if sc.apply_form == "m" else " (a/b)"))
+        if len(ap) != len(labels):
+            problems.append(("no-apply", "%d apply outputs for %d apply commands" % (len(ap), len(labels))))
+            return problems, stats
+        wall = 0.0
+        for rec, label in zip(ap, labels):
+            if "S" not in rec:
+                problems.append(("apply-failed", "%s: %s" % (label, rec["line"])))
+                continue
             w = 0.0
-            for f in range(sc.F):
+            wf = None
+            for f in range(len(rec["S"])):
                 flat = [x for row in sc.dut[f] for x in row]
-                got = ap["S"][f]
+                got = rec["S"][f]
                 if len(got) != len(flat):
-                    w = float("inf")
+                    w, wf = float("inf"), f
                     break
                 d = max(abs(a - b) for a, b in zip(flat, got)) / max(1.0, max(abs(x) for x in flat))
                 if not d <= w:
-                    w = d
-            stats["apply"] = w
+                    w, wf = d, f
+            if not w <= wall:
+                wall = w
             if not w <= TOL:
-                problems.append(("apply-mismatch", "applied S differs from the DUT's S: relative error %.3g" % w))
+                problems.append(("apply-mismatch", "%s: applied S differs from the DUT's S: relative error %.3g "
+                                 "(worst at frequency index %s)" % (label, w, wf)))
+        stats["apply"] = wall
     else:
+        ap = ap[0]
         if ap.get("rc") != "-1" or ap.get("errno") != "EINVAL":
             problems.append(("apply-not-refused", ap["line"]))
     return problems, stats
